@@ -134,7 +134,10 @@ class GotranODECodePrinter(BaseGotranODECodePrinter):
             d[i.components].append(i)
 
         text = ""
-        for components, intermediates in d.items():
+        # Assignments without a component have no block header, so they need to
+        # come first, otherwise they end up in the preceding named block
+        for components in sorted(d.keys(), key=lambda c: c != ("",)):
+            intermediates = d[components]
             text += start_odeblock("expressions", names=components, is_expression=True) + "\n"
             text += "\n".join([print_assignment(i, doprint=self.doprint) for i in intermediates])
             text += "\n\n"
